@@ -77,12 +77,19 @@ class RealRange(Domain):
         self.hi = hi
 
     def sample(self, rng):
+        # boundary-directed: the ends of the range, zero and small magnitudes are over-represented
         r = rng.random()
+        lo, hi = float(self.lo), float(self.hi)
         if r < 0.05:
-            return float(self.lo)
+            return lo
         if r < 0.1:
-            return float(self.hi)
-        return rng.uniform(float(self.lo), float(self.hi))
+            return hi
+        if r < 0.16 and lo <= 0.0 <= hi:
+            return 0.0
+        if r < 0.2 and lo <= 0.0 <= hi:
+            v = rng.choice([-1, 1]) * 10 ** rng.uniform(-12, 0)
+            return min(max(v, lo), hi)
+        return rng.uniform(lo, hi)
 
 
 class Bool(Domain):
